@@ -2,6 +2,8 @@
 from lib import flow
 
 _small = dict(module="WriterReady", workers=8)
+_listish = lambda p: any(st.get("shape") == "one" and (st.get("members") or st.get("obj") == "dropped") for st in p.get("steps", []))
+_is_list_plan = lambda p: p.get("src") == "lists" or any("shape" in st for st in p.get("steps", []))
 C = dict(
     prop="C08", driver="writerready", level="model_checking",
     model_checks=[
@@ -10,6 +12,7 @@ C = dict(
         dict(module="WriterReady", cfg="WriterReady_MC.cfg", tiers=["thorough"], workers=8, timeout=1500),
     ],
     plan_sources=[
+        dict(name="lists", module="WriterReq", cfg="WriterReq_PlanQ.cfg", workers=4),
         dict(name="cases", module="WriterReady", cfg="WriterReady_PlanCases.cfg", workers=4),
         dict(name="histq", module="WriterReady", cfg="WriterReady_PlanHistQ.cfg", workers=8, tiers=["quick"]),
         dict(name="hist2q", module="WriterReady", cfg="WriterReady_PlanHist2Q.cfg", workers=8, tiers=["quick"]),
@@ -20,10 +23,13 @@ C = dict(
     ],
     # every third history also runs under a whole-database name mapping (the downstream holds the objects under the mapped
     # database, the writer's create / drop tables stay keyed by source names)
-    expand_plans=lambda plans, tier: [q for i, p in enumerate(plans) for q in
+    expand_plans=lambda plans, tier: [q for i, p in enumerate([x for x in plans if x.get("src") != "lists" or _listish(x)]) for q in
                                       ([p] + ([dict(p, plan=str(p["plan"]) + "-map", params=dict(p.get("params") or {}, dbmap="x_"))]
-                                              if p.get("src") != "cases" and (i % 3 == 0 or p.get("src") == "directed") else []))],
+                                              if p.get("src") not in ("cases", "lists") and (i % 3 == 0 or p.get("src") == "directed") else []))],
     directed="plans/C08.jsonl",
+    # list operations (flush / load / release partitions with live and dropped members, dropped parents): the message classes of
+    # WriterReq.tla replayed by the C20 driver, judged here by C08's statement only (acceptor WriterReq_Trace with PROP=C08)
+    more_drivers=["writerreq"],
     trace=("WriterReady_Trace", "WriterReady_Trace.cfg"),
     death="violation",
     nontrivial=lambda t: any(e.get("calls") for e in t["events"]),
@@ -53,4 +59,8 @@ def run(tier, replay=None):
         if "Contract" not in r.violated:
             raise vlib.Inconclusive("WriterReady_ProbeTs.cfg no longer violates the contract: out-of-order delivery is vacuous")
         vlib.log("[tlc] WriterReady/WriterReady_ProbeTs.cfg: violates Contract as expected")
-    return flow.standard_flow(C, tier, replay)
+    c = dict(C)
+    c["driver_of"] = lambda p: "writerreq" if _is_list_plan(p) else "writerready"
+    c["trace_of"] = lambda p: (("WriterReq_Trace", "WriterReq_Trace.cfg", {"PROP": "C08"}) if _is_list_plan(p)
+                               else ("WriterReady_Trace", "WriterReady_Trace.cfg", {}))
+    return flow.standard_flow(c, tier, replay)
